@@ -559,6 +559,28 @@ EGLPNUM_TYPENAME_QSLIB_INTERFACE int EGLPNUM_TYPENAME_QSopt_strongbranch (
 		rval = 1;
 		CHECKRVALG (rval, CLEANUP);
 	}
+	/* like the tableau functions this one works on the simplex state of the
+	 * last solve: there has to be one, and it has to be that of this problem */
+	if (p->cache == 0 || p->qstatus == QS_LP_MODIFIED)
+	{
+		QSlog("LP has not been optimized in EGLPNUM_TYPENAME_QSopt_strongbranch");
+		rval = 1;
+		goto CLEANUP;
+	}
+	/* check the whole list before the first candidate is branched on */
+	{
+		int k;
+		for (k = 0; k < ncand; k++)
+		{
+			if (candidatelist[k] < 0 || candidatelist[k] >= p->qslp->nstruct)
+			{
+				QSlog("EGLPNUM_TYPENAME_QSopt_strongbranch called with bad column index: %d",
+										candidatelist[k]);
+				rval = 1;
+				goto CLEANUP;
+			}
+		}
+	}
 
 	rval = EGLPNUM_TYPENAME_ILLlib_strongbranch (p->lp, p->pricing, candidatelist, ncand,
 															xlist, down_vals, up_vals, iterations, objbound,
